@@ -71,6 +71,9 @@ fn check_trrel_history(n: usize, hist: &[(usize, usize)], st: &mut Stats) {
          let ctx = || format!("history={:?} after step {}", hist, step);
          uf.assert_disjoint_invariant();
          uf.assert_set_connections_dominant_sets();
+         if uf.is_empty() {
+            fails.push(("is_empty_after_add", ctx()));
+         }
          let mut all: BTreeSet<(usize, usize)> = BTreeSet::new();
          let mut dup = false;
          for (a, b) in uf.iter_all() {
@@ -140,7 +143,9 @@ fn check_trrel_history(n: usize, hist: &[(usize, usize)], st: &mut Stats) {
 #[derive(Clone, Copy, Debug)]
 enum UfOp {
    Add(usize),
+   AddClone(usize),
    Union(usize, usize),
+   UnionClone(usize, usize),
    Find(usize),
    UnionIds(usize, usize),
 }
@@ -170,8 +175,21 @@ fn check_uf_history(n: usize, hist: &[UfOp], st: &mut Stats) {
                class.entry(x).or_insert(x);
                ids.entry(x).or_insert(id);
             },
-            UfOp::Union(x, y) => {
-               uf.union_add(x, y);
+            UfOp::AddClone(x) => {
+               let known = class.contains_key(&x);
+               let (new, id) = uf.add_clone(&x);
+               if new == known {
+                  fails.push(("uf_add_return", ctx()));
+               }
+               class.entry(x).or_insert(x);
+               ids.entry(x).or_insert(id);
+            },
+            UfOp::Union(x, y) | UfOp::UnionClone(x, y) => {
+               if matches!(*op, UfOp::Union(..)) {
+                  uf.union_add(x, y);
+               } else {
+                  uf.union_add_clone(&x, &y);
+               }
                class.entry(x).or_insert(x);
                class.entry(y).or_insert(y);
                let (cx, cy) = (class[&x], class[&y]);
@@ -311,9 +329,11 @@ fn main() {
       let mut alphabet = vec![];
       for x in 0..items {
          alphabet.push(UfOp::Add(x));
+         alphabet.push(UfOp::AddClone(x));
          alphabet.push(UfOp::Find(x));
          for y in 0..items {
             alphabet.push(UfOp::Union(x, y));
+            alphabet.push(UfOp::UnionClone(x, y));
             if x < y {
                alphabet.push(UfOp::UnionIds(x, y));
             }
@@ -338,8 +358,10 @@ fn main() {
          let mut rng = Rng::new(seed.wrapping_mul(1000003).wrapping_add(ri as u64 * 2 + 2));
          let dom = 3 + rng.below(30);
          let l = 10 + rng.below(120);
-         let hist: Vec<UfOp> = (0..l).map(|_| match rng.below(4) {
+         let hist: Vec<UfOp> = (0..l).map(|_| match rng.below(6) {
             0 => UfOp::Add(rng.below(dom)),
+            4 => UfOp::AddClone(rng.below(dom)),
+            5 => UfOp::UnionClone(rng.below(dom), rng.below(dom)),
             1 => UfOp::Find(rng.below(dom)),
             2 => UfOp::UnionIds(rng.below(dom), rng.below(dom)),
             _ => UfOp::Union(rng.below(dom), rng.below(dom)),
